@@ -68,7 +68,8 @@ type Oblig struct {
 
 type State struct {
 	vars  map[types.Object]Value
-	HI    T // scalar heap
+	H     map[string]T // typed scalar heaps: key (struct type, field) or scalar type -> (Array Int Int); missing = epoch symbol
+	epoch int          // identifies the family of not-yet-touched heaps (changes at every havoc)
 	Mem   T // block heap
 	alloc T
 	pc    T
@@ -76,7 +77,10 @@ type State struct {
 }
 
 func (s *State) clone() *State {
-	n := &State{HI: s.HI, Mem: s.Mem, alloc: s.alloc, pc: s.pc, vars: make(map[types.Object]Value, len(s.vars)), ghost: make(map[string]T, len(s.ghost))}
+	n := &State{Mem: s.Mem, alloc: s.alloc, pc: s.pc, epoch: s.epoch, vars: make(map[types.Object]Value, len(s.vars)), ghost: make(map[string]T, len(s.ghost)), H: make(map[string]T, len(s.H))}
+	for k, v := range s.H {
+		n.H[k] = v
+	}
 	for k, v := range s.vars {
 		n.vars[k] = v
 	}
@@ -121,6 +125,13 @@ type Engine struct {
 	escaping map[*types.Var]bool
 	funcsUsed map[string]bool
 	strTerms []strTerm
+	strIDs []T
+	heapSyms map[string]T
+	heapKeys []string
+	heapKeySeen map[string]bool
+	structIDs map[*types.Struct]string
+	epochCtr int
+	heapDecls []Def
 }
 
 type pkgCtx struct {
@@ -129,7 +140,14 @@ type pkgCtx struct {
 }
 
 func newEngine(p *Program) *Engine {
-	e := &Engine{prog: p, declared: map[string]bool{}, typeIDs: map[string]int{}, strLits: map[string]T{},
+	e := newEngine0(p)
+	e.declareUF("slen", "(declare-fun slen (Int) Int)")
+	e.declareUF("sarr", "(declare-fun sarr (Int) (Array Int Int))")
+	return e
+}
+
+func newEngine0(p *Program) *Engine {
+	e := &Engine{heapSyms: map[string]T{}, heapKeySeen: map[string]bool{}, structIDs: map[*types.Struct]string{}, prog: p, declared: map[string]bool{}, typeIDs: map[string]int{}, strLits: map[string]T{},
 		globals: map[types.Object]Value{}, assumptions: map[string]bool{}, funcsUnder: map[string]bool{}, uf: map[string]string{}}
 	return e
 }
@@ -179,6 +197,13 @@ func (e *Engine) assume(st *State, fact T, origin string) {
 		return
 	}
 	e.facts = append(e.facts, Fact{Implies(st.pc, fact), origin})
+}
+
+func (e *Engine) assumeQ(st *State, fact T, origin string) {
+	if e.quant > 0 {
+		return
+	}
+	e.assume(st, fact, origin)
 }
 
 func (e *Engine) assumeGlobal(fact T, origin string) {
@@ -408,6 +433,7 @@ func (e *Engine) symbolic(st *State, prefix string, t types.Type) Value {
 		case u.Info()&types.IsString != 0:
 			s := e.fresh(prefix, SInt)
 			e.assume(st, Ge(e.slen(s), I(0)), "string length")
+			e.strIDs = append(e.strIDs, s)
 			return StrV{s}
 		default:
 			v := e.fresh(prefix, SInt)
@@ -457,7 +483,67 @@ func (e *Engine) allocBlock(st *State, n int) T {
 }
 
 // ---------------------------------------------------------------------------------------
-// Heap access.
+// Heap access.  Scalar cells live in typed heaps: one (Array Int Int) per (struct type, field) or per
+// scalar type for cells outside structs.  Addresses are flat (base + offset), so interior pointers work,
+// while cells of different fields can never alias (type safety of Go, no unsafe).
+
+func (e *Engine) heapGet(st *State, key string) T {
+	if t, ok := st.H[key]; ok {
+		return t
+	}
+	ek := fmt.Sprintf("%s@%d", key, st.epoch)
+	if t, ok := e.heapSyms[ek]; ok {
+		return t
+	}
+	e.nsym++
+	name := fmt.Sprintf("H_%s!%d", sanitize(key), e.nsym)
+	// heap symbols are declared ahead of all definitions so that every obligation sees them
+	e.heapDecls = append(e.heapDecls, Def{name: name, sort: SArr})
+	t := T{name, SArr}
+	e.heapSyms[ek] = t
+	if !e.heapKeySeen[key] {
+		e.heapKeySeen[key] = true
+		e.heapKeys = append(e.heapKeys, key)
+	}
+	return t
+}
+
+
+func (e *Engine) heapSet(st *State, key string, t T) {
+	if !e.heapKeySeen[key] {
+		e.heapKeySeen[key] = true
+		e.heapKeys = append(e.heapKeys, key)
+	}
+	st.H[key] = t
+}
+
+func (e *Engine) structKey(u *types.Struct, hint types.Type) string {
+	if k, ok := e.structIDs[u]; ok {
+		return k
+	}
+	name := fmt.Sprintf("s%d", len(e.structIDs)+1)
+	if n, ok := hint.(*types.Named); ok {
+		name = n.Obj().Name() + fmt.Sprintf("%d", len(e.structIDs)+1)
+	}
+	e.structIDs[u] = name
+	return name
+}
+
+func scalarKey(t types.Type) string {
+	switch u := under(t).(type) {
+	case *types.Basic:
+		return "ty_" + u.Name()
+	case *types.Pointer:
+		return "ty_ptr"
+	case *types.Slice:
+		return "ty_slice"
+	case *types.Interface:
+		return "ty_iface"
+	case *types.Map:
+		return "ty_map"
+	}
+	return "ty_other"
+}
 
 // flatten a value into cells (Int terms).
 func (e *Engine) flatten(st *State, v Value, t types.Type) []T {
@@ -492,43 +578,55 @@ func (e *Engine) flatten(st *State, v Value, t types.Type) []T {
 }
 
 func (e *Engine) loadAt(st *State, addr T, t types.Type) Value {
+	return e.loadAtK(st, addr, t, scalarKey(t))
+}
+
+func (e *Engine) loadAtK(st *State, addr T, t types.Type, key string) Value {
 	switch u := under(t).(type) {
 	case *types.Basic:
-		c := Sel(st.HI, addr)
+		c := Sel(e.heapGet(st, key), addr)
 		switch {
 		case u.Info()&types.IsBoolean != 0:
 			return BoolV{I2B(c)}
 		case u.Info()&types.IsString != 0:
-			c = e.name("ld", c)
-			e.assume(st, Ge(e.slen(c), I(0)), "string length")
+			c = e.nameQ("ld", c)
+			e.assumeQ(st, Ge(e.slen(c), I(0)), "string length")
+			if e.quant == 0 {
+				e.strIDs = append(e.strIDs, c)
+			}
 			return StrV{c}
 		default:
-			c = e.name("ld", c)
-			e.assume(st, rangeFact(c, t), "typed memory: "+u.Name())
+			c = e.nameQ("ld", c)
+			e.assumeQ(st, rangeFact(c, t), "typed memory: "+u.Name())
 			return IntV{c}
 		}
 	case *types.Pointer, *types.Map, *types.Chan, *types.Signature:
-		c := e.name("ldp", Sel(st.HI, addr))
+		c := e.nameQ("ldp", Sel(e.heapGet(st, key), addr))
 		sz := 1
 		if p, ok := u.(*types.Pointer); ok {
 			sz = e.cells(p.Elem())
 		}
-		e.assume(st, And(Ge(c, I(0)), Le(Add(c, I(int64(sz))), st.alloc)), "typed memory: reference is allocated")
+		e.assumeQ(st, And(Ge(c, I(0)), Le(Add(c, I(int64(sz))), st.alloc)), "typed memory: reference is allocated")
 		return RefV{c}
 	case *types.Slice:
-		blk := e.name("ld_blk", Sel(st.HI, addr))
-		off := e.name("ld_off", Sel(st.HI, Add(addr, I(1))))
-		ln := e.name("ld_len", Sel(st.HI, Add(addr, I(2))))
-		cp := e.name("ld_cap", Sel(st.HI, Add(addr, I(3))))
-		e.assume(st, And(Ge(blk, I(0)), Lt(blk, st.alloc), Ge(off, I(0)), Ge(ln, I(0)), Le(ln, cp), Le(cp, I(1<<40)), Le(off, I(1<<40)),
+		h := e.heapGet(st, key)
+		blk := e.nameQ("ld_blk", Sel(h, addr))
+		off := e.nameQ("ld_off", Sel(h, Add(addr, I(1))))
+		ln := e.nameQ("ld_len", Sel(h, Add(addr, I(2))))
+		cp := e.nameQ("ld_cap", Sel(h, Add(addr, I(3))))
+		e.assumeQ(st, And(Ge(blk, I(0)), Lt(blk, st.alloc), Ge(off, I(0)), Ge(ln, I(0)), Le(ln, cp), Le(cp, I(1<<40)), Le(off, I(1<<40)),
 			Implies(Eq(blk, I(0)), And(Eq(ln, I(0)), Eq(cp, I(0))))), "typed memory: slice well-formed")
 		return SliceV{blk, off, ln, cp}
 	case *types.Interface:
-		r := e.name("ld_if", Sel(st.HI, addr))
-		tag := e.name("ld_tag", Sel(st.HI, Add(addr, I(1))))
-		e.assume(st, And(Ge(r, I(0)), Lt(r, st.alloc), Eq(Eq(r, I(0)), Eq(tag, I(0)))), "typed memory: interface well-formed")
+		h := e.heapGet(st, key)
+		r := e.nameQ("ld_if", Sel(h, addr))
+		tag := e.nameQ("ld_tag", Sel(h, Add(addr, I(1))))
+		e.assumeQ(st, And(Ge(r, I(0)), Lt(r, st.alloc), Eq(Eq(r, I(0)), Eq(tag, I(0)))), "typed memory: interface well-formed")
 		return IfaceV{r, tag}
 	case *types.Array:
+		if e.specMode > 0 {
+			return ArrV{addr}
+		}
 		// value semantics: copy into a fresh block
 		blk := e.allocBlock(st, 1)
 		st.Mem = e.name("Mem", Sto(st.Mem, blk, Sel(st.Mem, addr)))
@@ -536,17 +634,22 @@ func (e *Engine) loadAt(st *State, addr T, t types.Type) Value {
 	case *types.Struct:
 		sv := StructV{typ: u}
 		off := 0
+		sk := e.structKey(u, t)
 		for i := 0; i < u.NumFields(); i++ {
 			ft := u.Field(i).Type()
-			sv.f = append(sv.f, e.loadAt(st, Add(addr, I(int64(off))), ft))
+			sv.f = append(sv.f, e.loadAtK(st, Add(addr, I(int64(off))), ft, sk+"."+u.Field(i).Name()))
 			off += e.cells(ft)
 		}
 		return sv
 	}
-	return IntV{Sel(st.HI, addr)}
+	return IntV{Sel(e.heapGet(st, key), addr)}
 }
 
 func (e *Engine) storeAt(st *State, addr T, t types.Type, v Value) {
+	e.storeAtK(st, addr, t, v, scalarKey(t))
+}
+
+func (e *Engine) storeAtK(st *State, addr T, t types.Type, v Value, key string) {
 	if lv, ok := v.(LocV); ok {
 		v = e.loadAt(st, lv.addr, t)
 	}
@@ -564,19 +667,20 @@ func (e *Engine) storeAt(st *State, addr T, t types.Type, v Value) {
 			return
 		}
 		off := 0
+		sk := e.structKey(u, t)
 		for i := 0; i < u.NumFields(); i++ {
 			ft := u.Field(i).Type()
-			e.storeAt(st, Add(addr, I(int64(off))), ft, sv.f[i])
+			e.storeAtK(st, Add(addr, I(int64(off))), ft, sv.f[i], sk+"."+u.Field(i).Name())
 			off += e.cells(ft)
 		}
 		return
 	}
 	cellsv := e.flatten(st, v, t)
-	h := st.HI
+	h := e.heapGet(st, key)
 	for i, c := range cellsv {
 		h = Sto(h, Add(addr, I(int64(i))), c)
 	}
-	st.HI = e.name("HI", h)
+	e.heapSet(st, key, e.name("H", h))
 }
 
 // ---------------------------------------------------------------------------------------
@@ -588,8 +692,7 @@ func (e *Engine) slen(s T) T {
 }
 
 func (e *Engine) sbyte(s, i T) T {
-	e.declareUF("sbyte", "(declare-fun sbyte (Int Int) Int)")
-	return app(SInt, "sbyte", s, i)
+	return Sel(e.sarr(s), i)
 }
 
 func (e *Engine) strLit(s string) T {
@@ -601,6 +704,7 @@ func (e *Engine) strLit(s string) T {
 	e.defs = append(e.defs, Def{name: name, sort: SInt})
 	t := T{name, SInt}
 	e.strLits[s] = t
+	e.strIDs = append(e.strIDs, t)
 	fs := []T{Eq(e.slen(t), I(int64(len(s))))}
 	if len(s) <= 64 {
 		for i := 0; i < len(s); i++ {
@@ -624,35 +728,35 @@ func (e *Engine) mergeValues(c T, a, b Value) Value {
 	switch x := a.(type) {
 	case IntV:
 		if y, ok := b.(IntV); ok {
-			return IntV{e.name("m", Ite(c, x.t, y.t))}
+			return IntV{e.nameQ("m", Ite(c, x.t, y.t))}
 		}
 	case BoolV:
 		if y, ok := b.(BoolV); ok {
-			return BoolV{e.name("m", Ite(c, x.t, y.t))}
+			return BoolV{e.nameQ("m", Ite(c, x.t, y.t))}
 		}
 	case RefV:
 		if y, ok := b.(RefV); ok {
-			return RefV{e.name("m", Ite(c, x.t, y.t))}
+			return RefV{e.nameQ("m", Ite(c, x.t, y.t))}
 		}
 	case StrV:
 		if y, ok := b.(StrV); ok {
-			return StrV{e.name("m", Ite(c, x.t, y.t))}
+			return StrV{e.nameQ("m", Ite(c, x.t, y.t))}
 		}
 	case SliceV:
 		if y, ok := b.(SliceV); ok {
-			return SliceV{e.name("m", Ite(c, x.blk, y.blk)), e.name("m", Ite(c, x.off, y.off)), e.name("m", Ite(c, x.ln, y.ln)), e.name("m", Ite(c, x.cp, y.cp))}
+			return SliceV{e.nameQ("m", Ite(c, x.blk, y.blk)), e.nameQ("m", Ite(c, x.off, y.off)), e.nameQ("m", Ite(c, x.ln, y.ln)), e.nameQ("m", Ite(c, x.cp, y.cp))}
 		}
 	case IfaceV:
 		if y, ok := b.(IfaceV); ok {
-			return IfaceV{e.name("m", Ite(c, x.ref, y.ref)), e.name("m", Ite(c, x.tag, y.tag))}
+			return IfaceV{e.nameQ("m", Ite(c, x.ref, y.ref)), e.nameQ("m", Ite(c, x.tag, y.tag))}
 		}
 	case ArrV:
 		if y, ok := b.(ArrV); ok {
-			return ArrV{e.name("m", Ite(c, x.blk, y.blk))}
+			return ArrV{e.nameQ("m", Ite(c, x.blk, y.blk))}
 		}
 	case LocV:
 		if y, ok := b.(LocV); ok {
-			return LocV{e.name("m", Ite(c, x.addr, y.addr))}
+			return LocV{e.nameQ("m", Ite(c, x.addr, y.addr))}
 		}
 	case StructV:
 		if y, ok := b.(StructV); ok && len(x.f) == len(y.f) {
@@ -695,7 +799,37 @@ func (e *Engine) merge(states []*State) *State {
 		c := s.pc
 		n := &State{vars: map[types.Object]Value{}, ghost: map[string]T{}}
 		n.pc = e.name("pc", Or(s.pc, acc.pc))
-		n.HI = e.name("HI", Ite(c, s.HI, acc.HI))
+		n.H = map[string]T{}
+		if s.epoch == acc.epoch {
+			n.epoch = s.epoch
+			keys := map[string]bool{}
+			for k := range s.H {
+				keys[k] = true
+			}
+			for k := range acc.H {
+				keys[k] = true
+			}
+			for _, k := range sortedBoolKeys(keys) {
+				a, b := e.heapGet(s, k), e.heapGet(acc, k)
+				if a.s == b.s {
+					n.H[k] = a
+				} else {
+					n.H[k] = e.name("H", Ite(c, a, b))
+				}
+			}
+		} else {
+			// different havoc histories: materialise every known heap; heaps first touched later are unconstrained
+			e.epochCtr++
+			n.epoch = e.epochCtr
+			for _, k := range append([]string(nil), e.heapKeys...) {
+				a, b := e.heapGet(s, k), e.heapGet(acc, k)
+				if a.s == b.s {
+					n.H[k] = a
+				} else {
+					n.H[k] = e.name("H", Ite(c, a, b))
+				}
+			}
+		}
 		n.Mem = e.name("Mem", Ite(c, s.Mem, acc.Mem))
 		n.alloc = e.name("alloc", Ite(c, s.alloc, acc.alloc))
 		for k, v := range s.vars {
@@ -727,6 +861,15 @@ func nodeText(fset *token.FileSet, n ast.Node) string {
 	var b strings.Builder
 	printNode(&b, fset, n)
 	return b.String()
+}
+
+func sortedBoolKeys(m map[string]bool) []string {
+	var ks []string
+	for k := range m {
+		ks = append(ks, k)
+	}
+	sort.Strings(ks)
+	return ks
 }
 
 func sortedKeys(m map[string]int) []string {
